@@ -2,7 +2,8 @@ package c35
 
 // Driver for C35: sequential replay of TLC behaviours (and seeded random input sequences) on
 // the real balancer.ConnectivityStateEvaluator ("cse"), endpointsharding balancer with stub
-// children ("es") and weightedaggregator.Aggregator ("wt").  The driver only drives and records.
+// children ("es"), weightedaggregator.Aggregator ("wt") and the real weighted_target balancer with
+// stub child policies registered under two names ("wtb").  The driver only drives and records.
 
 import (
 	"encoding/json"
@@ -13,12 +14,15 @@ import (
 
 	"google.golang.org/grpc/balancer"
 	"google.golang.org/grpc/balancer/endpointsharding"
+	"google.golang.org/grpc/balancer/weightedtarget"
 	"google.golang.org/grpc/balancer/weightedtarget/weightedaggregator"
 	"google.golang.org/grpc/connectivity"
+	internalserviceconfig "google.golang.org/grpc/internal/serviceconfig"
 	"google.golang.org/grpc/internal/wrr"
 	"google.golang.org/grpc/internal/zzverif/vlib"
 	"google.golang.org/grpc/internal/zzverif/vlib/lbtest"
 	"google.golang.org/grpc/resolver"
+	"google.golang.org/grpc/serviceconfig"
 )
 
 const maxChildren = 6
@@ -30,6 +34,7 @@ type step struct {
 	Cs   []int    `json:"cs"`
 	Init []string `json:"init"`
 	K    string   `json:"k"`
+	Rp   []int    `json:"rp"`
 }
 
 // picked is the error a stub child's picker returns: it identifies the child and the
@@ -290,12 +295,163 @@ func (e *wtEnv) apply(st step, tr *vlib.Trace) {
 	}
 }
 
+// ------------------------------------------------------------------ wtb (real weighted_target balancer)
+type wtbCfg struct {
+	serviceconfig.LoadBalancingConfig
+	C int
+}
+
+type wtbTarget struct {
+	weight uint32
+	kind   int // which of the two registered stub child policy names
+}
+
+type wtbEnv struct {
+	cc      *lbtest.RecCC
+	b       balancer.Balancer
+	targets map[int]wtbTarget
+	kids    map[int]*wtbChild
+	ver     map[int]int
+	nver    int
+	picker  balancer.Picker
+}
+
+type wtbChild struct {
+	env *wtbEnv
+	cc  balancer.ClientConn
+	c   int
+}
+
+func (c *wtbChild) UpdateClientConnState(s balancer.ClientConnState) error {
+	if cfg, ok := s.BalancerConfig.(*wtbCfg); ok && c.c == 0 {
+		c.c = cfg.C
+		c.env.kids[c.c] = c
+		delete(c.env.ver, c.c)
+	}
+	return nil
+}
+func (c *wtbChild) ResolverError(error)                                        {}
+func (c *wtbChild) UpdateSubConnState(balancer.SubConn, balancer.SubConnState) {}
+func (c *wtbChild) ExitIdle()                                                  {}
+func (c *wtbChild) Close() {
+	if c.c != 0 && c.env.kids[c.c] == c {
+		delete(c.env.kids, c.c)
+		delete(c.env.ver, c.c)
+	}
+}
+
+var wtbCur *wtbEnv
+
+type wtbBuilder struct{ name string }
+
+func (b wtbBuilder) Name() string { return b.name }
+func (b wtbBuilder) Build(cc balancer.ClientConn, _ balancer.BuildOptions) balancer.Balancer {
+	return &wtbChild{env: wtbCur, cc: cc}
+}
+
+var wtbKinds = []string{"c35stub_verif_a", "c35stub_verif_b"}
+
+func init() {
+	for _, n := range wtbKinds {
+		balancer.Register(wtbBuilder{name: n})
+	}
+}
+
+func newWTB() *wtbEnv {
+	e := &wtbEnv{cc: lbtest.NewRecCC(), targets: map[int]wtbTarget{}, kids: map[int]*wtbChild{}, ver: map[int]int{}}
+	wtbCur = e
+	e.b = balancer.Get(weightedtarget.Name).Build(e.cc, balancer.BuildOptions{})
+	return e
+}
+func (e *wtbEnv) close() { e.b.Close() }
+func (e *wtbEnv) push() {
+	cfg := &weightedtarget.LBConfig{Targets: map[string]weightedtarget.Target{}}
+	for c, t := range e.targets {
+		cfg.Targets[fmt.Sprintf("t%d", c)] = weightedtarget.Target{Weight: t.weight,
+			ChildPolicy: &internalserviceconfig.BalancerConfig{Name: wtbKinds[t.kind], Config: &wtbCfg{C: c}}}
+	}
+	e.b.UpdateClientConnState(balancer.ClientConnState{BalancerConfig: cfg})
+}
+func (e *wtbEnv) emit(ev map[string]any, tr *vlib.Trace) {
+	ev["rep"] = reps(e.cc, &e.picker)
+	ev["picks"], ev["stale"] = probe(e.picker, 2*len(e.targets)+2, e.ver)
+	tr.Emit(ev)
+}
+func (e *wtbEnv) report(c int, s string, tr *vlib.Trace) {
+	k := e.kids[c]
+	if k == nil {
+		tr.Emit(map[string]any{"ev": "noop", "k": "nochild", "rep": []string{}})
+		return
+	}
+	e.nver++
+	e.ver[c] = e.nver
+	k.cc.UpdateState(balancer.State{ConnectivityState: lbtest.StateOf(s), Picker: stubPicker{c, e.nver}})
+	e.emit(map[string]any{"ev": "trans", "c": c, "s": s}, tr)
+}
+func (e *wtbEnv) apply(st step, tr *vlib.Trace) {
+	switch st.A {
+	case "add":
+		e.targets[st.C] = wtbTarget{weight: uint32(1 + st.C%3), kind: st.C % 2}
+		e.push()
+		e.emit(map[string]any{"ev": "add", "c": st.C, "s": "CONNECTING"}, tr)
+		if st.S != "CONNECTING" {
+			e.report(st.C, st.S, tr)
+		}
+	case "remove":
+		delete(e.targets, st.C)
+		e.push()
+		e.emit(map[string]any{"ev": "remove", "c": st.C}, tr)
+	case "trans":
+		e.report(st.C, st.S, tr)
+	case "repl":
+		t := e.targets[st.C]
+		t.kind = 1 - t.kind
+		e.targets[st.C] = t
+		e.push()
+		e.emit(map[string]any{"ev": "repl", "c": st.C}, tr)
+	case "wgt":
+		t := e.targets[st.C]
+		t.weight = t.weight%5 + 1
+		e.targets[st.C] = t
+		e.push()
+		e.emit(map[string]any{"ev": "noop", "k": "weight"}, tr)
+	case "cfgw":
+		// a config update changing several targets at once: Cs = targets present afterwards,
+		// Rp = those (already present) whose child policy type changes
+		nt := map[int]wtbTarget{}
+		for _, c := range st.Cs {
+			t, ok := e.targets[c]
+			if !ok {
+				t = wtbTarget{weight: uint32(1 + c%3), kind: c % 2}
+			}
+			nt[c] = t
+		}
+		for _, c := range st.Rp {
+			t := nt[c]
+			t.kind = 1 - t.kind
+			nt[c] = t
+		}
+		e.targets = nt
+		e.push()
+		cs, rp := st.Cs, st.Rp
+		if cs == nil {
+			cs = []int{}
+		}
+		if rp == nil {
+			rp = []int{}
+		}
+		e.emit(map[string]any{"ev": "cfgw", "cs": cs, "rp": rp}, tr)
+	}
+}
+
 func newTarget(tg string, variant int) target {
 	switch tg {
 	case "cse":
 		return &cseTarget{st: map[int]connectivity.State{}}
 	case "es":
 		return newES(variant%2 == 0)
+	case "wtb":
+		return newWTB()
 	}
 	return newWT(variant%2 == 0)
 }
@@ -308,6 +464,12 @@ func runSteps(tg string, variant int, steps []step, tr *vlib.Trace) {
 	}()
 	t := newTarget(tg, variant)
 	for _, st := range steps {
+		if st.A == "repl" && tg != "wtb" {
+			// the other components have no "replace": the child is removed and a new one added
+			t.apply(step{A: "remove", C: st.C}, tr)
+			t.apply(step{A: "add", C: st.C, S: "CONNECTING"}, tr)
+			continue
+		}
 		t.apply(st, tr)
 	}
 	t.close()
@@ -328,12 +490,12 @@ func TestVerifC35Replay(t *testing.T) {
 		if err := json.Unmarshal(ln, &steps); err != nil {
 			t.Fatal(err)
 		}
-		for _, tg := range []string{"cse", "es", "wt"} {
+		for _, tg := range []string{"cse", "es", "wt", "wtb"} {
 			tr.Emit(map[string]any{"ev": "reset", "b": i, "tg": tg})
 			runSteps(tg, i, steps, tr)
 		}
 	}
-	fmt.Printf("VERIF_SUMMARY {\"behaviours\":%d,\"events\":%d}\n", 3*len(lines), tr.N)
+	fmt.Printf("VERIF_SUMMARY {\"behaviours\":%d,\"events\":%d}\n", 4*len(lines), tr.N)
 }
 
 // TestVerifC35Random: long seeded random input sequences inside the API's domain (only
@@ -348,7 +510,7 @@ func TestVerifC35Random(t *testing.T) {
 	runs := vlib.EnvInt("VERIF_N", 100)
 	states := []string{"CONNECTING", "READY", "IDLE", "TF"}
 	for r := 0; r < runs; r++ {
-		tg := []string{"cse", "es", "wt"}[r%3]
+		tg := []string{"cse", "es", "wt", "wtb", "wtb"}[r%5]
 		nmax := 2 + rng.Intn(maxChildren-1)
 		// bias towards a few states so that groups of equal state are frequent
 		pal := states
@@ -385,6 +547,24 @@ func TestVerifC35Random(t *testing.T) {
 				for _, c := range cs {
 					present[c] = true
 				}
+			case tg == "wtb" && x == 0:
+				// config update touching several targets
+				var cs, rp []int
+				for c := 1; c <= nmax; c++ {
+					if rng.Intn(3) != 0 {
+						cs = append(cs, c)
+						if present[c] && rng.Intn(3) == 0 {
+							rp = append(rp, c)
+						}
+					}
+				}
+				steps = append(steps, step{A: "cfgw", Cs: cs, Rp: rp})
+				present = map[int]bool{}
+				for _, c := range cs {
+					present[c] = true
+				}
+			case tg == "wtb" && x <= 2 && len(in) > 0:
+				steps = append(steps, step{A: []string{"repl", "repl", "wgt"}[rng.Intn(3)], C: in[rng.Intn(len(in))]})
 			case tg == "es" && x == 1:
 				steps = append(steps, step{A: "noop", K: []string{"reserr", "exitidle"}[rng.Intn(2)]})
 			case (x <= 3 || len(in) == 0) && len(out) > 0:
